@@ -282,6 +282,73 @@ def k_session(run, case):
             run.hit("L2 evaluations with and without projection in one session")
 
 
+def k_api(run, case):
+    """
+    main_ape.ape() called directly on freshly built trajectory objects of equal length (no
+    association step in between, every construction flavour incl. one stacked pose array), with
+    alignment / scale correction / origin alignment / projection options: the values equal the
+    definition on the documented processing of the generating arrays.
+    """
+    from evo import main_ape
+    from evo.core import metrics
+    from evo.core.trajectory import Plane
+    rng = run.rng(case)
+    n = int(rng.integers(3, 60))
+    ref = gen.traj_arrays(rng, n, pos_cls=["walk", "circle", "utm", "tiny"][rng.integers(4)],
+                          rot_cls=["smooth", "uniform", "mixed"][rng.integers(3)], stamp_cls="small")
+    for k in range(1, n):
+        if ref["t"][k] <= ref["t"][k - 1]:
+            ref["t"][k] = ref["t"][k - 1] + 1e-3
+    est = gen.perturbed_estimate(rng, ref, hostile=False)
+    if rng.random() < .15:
+        est["p"] = ref["p"].copy()  # an exact (down-)scaled / moved copy of the reference: zero error after alignment
+    A = gen.rand_se3(rng, tscale=float(np.std(ref["p"] - ref["p"].mean(axis=0))) + 1e-3)
+    sc = float([0.5, 2.0, 10.0**rng.uniform(-0.5, 0.5)][rng.integers(3)])
+    u = rng.random()
+    align, cs, origin = (u < .3), bool(rng.random() < .5), (.3 <= u < .5)
+    if cs and not align:
+        est["p"] = est["p"] / sc  # scale-only correction: the estimate differs by a pure scale
+    elif align or origin:
+        est["p"] = (A[:3, :3] @ est["p"].T).T / (sc if cs else 1.0) + A[:3, 3]
+        est["R"] = np.array([A[:3, :3] @ Rk for Rk in est["R"]])
+    stamped = bool(rng.random() < .5)
+    m1, m2 = ["se3", "xyzq"][rng.integers(2)], ["se3", "se3", "xyzq"][rng.integers(3)]
+    f1, f2 = gen.rand_flavour(rng), gen.rand_flavour(rng)
+    t_ref, t_est = gen.make_evo(ref, m1, stamped, flavour=f1), gen.make_evo(est, m2, stamped, flavour=f2)
+    gen.age(rng, t_ref, p=.3), gen.age(rng, t_est, p=.3)
+    relation = RELS[rng.integers(6)]
+    plane = [None, None, None, "xy", "xz", "yz"][rng.integers(6)]
+    o = {"align": align, "correct_scale": cs, "n_to_align": -1, "align_origin": origin, "project_to_plane": plane}
+    out = contracts.outcome_of(main_ape.ape, t_ref, t_est, metrics.PoseRelation[relation], align=align, correct_scale=cs,
+                               align_origin=origin, project_to_plane=Plane(plane) if plane else None)
+    run.seen(case, core.digest(ref["p"], est["p"], relation, align, cs, origin, plane, m2, f2),
+             cls=["L2 ape() on fresh objects: " + ("scale only" if cs and not align else "align" if align else "origin" if origin else "no alignment"),
+                  "L2 estimate container:%s/%s" % (m2, f2.split("+")[0])],
+             sample={"n": n, "relation": relation, "options": {k: v for k, v in o.items() if v and v != -1}, "outcome": out[0]})
+    try:
+        P = pipeline.Pipeline(ShadowTrajectory(ref["R"], ref["p"], ref["t"]), ShadowTrajectory(est["R"], est["p"], est["t"]), False)
+        P.align(align, cs, -1, origin)
+        P.project(plane)
+    except (pipeline.Ambiguous, pipeline.Refuse):
+        run.hit("L2 ape(): reference ambiguous / refuses (not judged)")
+        return
+    if not run.check(out[0] == "ok", "ape() succeeds", case, "ape() raised %r" % (out[1], ), key="api:failure"):
+        return
+    err = np.asarray(out[1].np_arrays["error_array"], dtype=float)
+    vr, ve = gen.read_views(t_ref), gen.read_views(t_est)
+    stored = (ShadowTrajectory(np.array([rm.rot_from_quat_wxyz(q) for q in vr["q"]]), vr["p"], None),
+              ShadowTrajectory(np.array([rm.rot_from_quat_wxyz(q) for q in ve["q"]]), ve["p"], None))
+    if not compare_processed(run, case, P, stored, o, "ape()"):
+        return
+    ref_s, est_s = stored
+    want = rm.ape_definition(relation, ref_s.R, ref_s.p, est_s.R, est_s.p)
+    tol = tol_for(relation, ref_s.p, est_s.p, rotation_defect(ref_s.R, est_s.R))
+    dev = float(np.max(np.abs(err - want))) if err.shape == want.shape else float("inf")
+    run.check(dev <= tol, "ape() on fresh objects == definition on the documented processing", case,
+              "ape(%s; %s) deviates from the definition by %g (tol %g)" % (relation, {k: v for k, v in o.items() if v and v != -1}, dev, tol),
+              key="api:not-definition")
+
+
 # ------------------------------------------------------------------ L3 helpers (shared with C02/C12)
 def make_file_pair(rng, fmt, workdir, n=None, pos_cls=None):
     """write a reference/estimate file pair; returns dict with paths and ground-truth arrays"""
@@ -765,7 +832,7 @@ def unit_factor(base_unit, unit):
 k_cli = with_workdir(ape_cli)
 
 
-KINDS = {"direct": k_direct, "unequal": k_unequal, "cli": k_cli, "session": k_session}
+KINDS = {"direct": k_direct, "unequal": k_unequal, "cli": k_cli, "session": k_session, "api": k_api}
 
 
 def main(run):
@@ -778,13 +845,15 @@ def main(run):
         k_unequal(run, run.case("unequal", i))
     for i in run.mine({"quick": 300, "thorough": 6000}[run.tier]):
         k_session(run, run.case("session", i))
+    for i in run.mine({"quick": 500, "thorough": 10000}[run.tier]):
+        k_api(run, run.case("api", i))
     for i in run.mine({"quick": 400, "thorough": 8000}[run.tier]):
         k_cli(run, run.case("cli", i))
     for i in run.mine({"quick": 8, "thorough": 160}[run.tier]):
         k_cli(run, run.case("cli", 10**6 + i, real=True))
     for i in run.mine({"quick": 6, "thorough": 60}[run.tier]):
         k_cli(run, run.case("cli", 2 * 10**6 + i, exe=True))
-    run.need("L3 runs through the real executable", "session: every evaluation == definition on its own associated pair",
+    run.need("ape() on fresh objects == definition on the documented processing", "L3 runs through the real executable", "session: every evaluation == definition on its own associated pair",
              "L2 evaluations with and without projection in one session","APE value == definition applied to its own pose pair", "APE: unequal lengths refused",
              "APE unchanged when ref/est swapped", "APE unchanged under a common rigid motion",
              "APE zero when trajectories coincide", "APE: exactly one value per pose",
